@@ -7,7 +7,12 @@
  R2 the live-results write dominates the raise of the not-enough-subunits error (on the paths where it is enabled), and the
     writer itself puts on every path from its entry to a normal return (must-pass-through in its CFG);
  R3 every remote key template starts with {S3_FILE_PATH}/{election_id}/ and its constant parts hold no whitespace;
- R4 prediction tables: exactly one put per entry of final_results, keyed by the entry's name.
+ R4 prediction tables: exactly one put per entry of final_results, keyed by the entry's name;
+ R5 same run (typestate of the client object): the national summary writes `self.<H>` (the results handler) under client
+    attributes that get_estimates sets (save flag, election id, office, unit type, model). Every assignment of such an attribute
+    in get_estimates must be dominated by an assignment of `self.<H>` in the same call (the previous run's results are dropped, or
+    this run's are already in place), so a call that fails midway cannot leave old results next to new settings; no other method
+    but __init__ assigns them.
 """
 from __future__ import annotations
 
@@ -244,6 +249,59 @@ def check(ctx):
                 nokeys = (kw is None or util.is_const(kw, None)) and len(c.args) <= 3
                 ctx.ob("C18.R4.all", f"{ge.qualname}|{util.stmt_text(c, 80)}", nokeys, ge.where(c),
                        "get_estimates writes every returned table" if nokeys else "get_estimates restricts which tables are written")
+
+    # ---- R5 ------------------------------------------------------------------------------
+    _same_run_rule(ctx, G)
+
+
+def _same_run_rule(ctx, G):
+    ge = ctx.fn(CLIENT, "ModelClient.get_estimates")
+    ns = ctx.fn(CLIENT, "ModelClient.get_national_summary_votes_estimates")
+
+    def self_attr(n):
+        return n.attr if isinstance(n, ast.Attribute) and isinstance(n.value, ast.Name) and n.value.id == "self" else None
+
+    # H: receiver of the summary's write; S: every client attribute the summary reads
+    holders = set()
+    for c in util.own_nodes(ns, ast.Call):
+        for callee in ctx.resolver.resolve_call(ns, c):
+            if isinstance(callee, FuncInfo) and callee.qualname in SITE_TABLE and isinstance(c.func, ast.Attribute) and self_attr(c.func.value):
+                holders.add(self_attr(c.func.value))
+    ctx.sites("C18.R5", len(holders), 1, "persistent write on a client attribute in get_national_summary_votes_estimates")
+    reads = {self_attr(n) for n in util.own_nodes(ns, ast.Attribute) if isinstance(n.ctx, ast.Load) and self_attr(n)}
+    reads = {a for a in reads if ns.cls.lookup(a) is None}  # data attributes, not methods
+
+    def stores(fn):
+        out = []
+        for n in util.own_nodes(fn, ast.Attribute):
+            if isinstance(n.ctx, ast.Store) and self_attr(n):
+                out.append(n)
+        return out
+
+    cfg = G.cfg(ge)
+    st = stores(ge)
+    n_checked = 0
+    for H in sorted(holders):
+        hnodes = [cfg.node_of(n) for n in st if n.attr == H]
+        for n in st:
+            if n.attr == H or n.attr not in reads:
+                continue
+            n_checked += 1
+            nn = cfg.node_of(n)
+            ok = any(h is not nn and cfg.dominates(h, nn) for h in hnodes)
+            ctx.ob("C18.R5.same-run", f"{ge.qualname}|{util.stmt_text(n, 70)}: after self.{H} of the earlier run is gone", ok, ge.where(n),
+                   f"self.{n.attr} (read by the national summary next to self.{H}) is assigned only after self.{H} has been reassigned in this call" if ok
+                   else f"self.{n.attr} is assigned while self.{H} can still hold the previous run's results: if this call fails before it "
+                        f"replaces them, get_national_summary_votes_estimates() writes the previous run's summary under this call's {n.attr}")
+    ctx.sites("C18.R5.same-run", n_checked, 2, "client attributes shared by get_estimates and the national summary")
+    # nobody else assigns them
+    for fn in ctx.repo.all_functions():
+        if fn.cls is None or fn is ge or fn.name == "__init__" or ns.cls not in fn.cls.mro():
+            continue
+        for n in stores(fn):
+            if n.attr in reads | holders:
+                ctx.ob("C18.R5.same-run", f"{fn.qualname}|self.{n.attr} assigned outside get_estimates", False, fn.where(n),
+                       f"{fn.qualname} assigns self.{n.attr}, which the national summary combines with the state of the last get_estimates call")
 
 
 def _key_problems(t):
